@@ -90,7 +90,12 @@ def gen_cases(rng, tier):
         cases.append({"is_fd": is_fd, "verbose": not is_fd, "sources": [{"arg": "small.txt", "content": {"pat": "41", "len": 11}}, {"arg": "over.dat", "content": {"rand": 14, "len": FULL + 1}},
                                                                        {"arg": "tail.bin", "content": {"pat": "42", "len": 300}}]})
     cases.append({"is_fd": rng.random() < 0.5, "verbose": False, "sources": [{"arg": "over2.bin", "content": {"rand": 15, "len": rng.choice([FULL + 1, FULL + 255, FULL + 2040, 400000])}}]})
-    return cases, {"random": n, "fixed": 6}
+    # one base name under several extensions on one side, and again on the next side
+    g = lambda a, n: {"arg": a, "content": {"rand": 20 + n, "len": n}}
+    for is_fd in (True, False):
+        cases.append({"is_fd": is_fd, "verbose": is_fd, "sources": [g("menu.bas", 700), g("game.bas", 3000), g("notes.txt", 11), g("game.bin", 2041), g("game", 5), g("GAME.txt", 300),
+                                                                   {"eos": "--eos"}, g("s+/game.bas", 10), g("s+/game.dat", 0)]})
+    return cases, {"random": n, "fixed": 8}
 
 
 def flow(case, ctx, cd):
